@@ -673,8 +673,7 @@ def run(chk):
     rule_paren(chk, fm, px)
     rule_optext(chk, fm, px, lx)
     rule_adj(chk, fm, px, lx)
-    rule_lit(chk, fm)
-    rule_lit_roundtrip(chk)
+    rule_literals(chk, fm)
 
 
 def rule_total(chk, fm):
@@ -1095,7 +1094,8 @@ def rule_lit_roundtrip(chk, prefix="C09.lit"):
                     if "panicking" in str(e):
                         bad = bad or "%s(%r) for %s: printing or lexing aborts (%s)" % (kind, v, tgt, str(e)[:60])
                         continue
-                    return chk.unreadable("%s/roundtrip/readable" % prefix, "format_literal / token_intermediate", e, where(fl))
+                    chk.note("%s/roundtrip: format_literal / token_intermediate not readable (%s); the suffix tables decide" % (prefix, str(e)[:80]))
+                    return False
                 ok = False
                 if isinstance(r, I.Enum) and r.variant == "Ok":
                     rest, tok = r.fields["0"]
@@ -1110,6 +1110,12 @@ def rule_lit_roundtrip(chk, prefix="C09.lit"):
     chk.floor("%s/roundtrip-floor" % prefix.replace(".lit", ".floor"), n, 100, "literal values printed and lexed", where(fl))
     return True
 
+
+
+def rule_literals(chk, fm, prefix="C09.lit"):
+    """printed literals lex back (evaluated); the suffix-table composition is the fallback when that is not readable"""
+    if not rule_lit_roundtrip(chk, prefix=prefix):
+        rule_lit(chk, fm)
 
 
 def rule_lit(chk, fm):
